@@ -184,6 +184,19 @@ CLAIMED["C19"] = dict(
     note=("Unforgeability is not decidable here; mismatches are the enumerated ones. Messages are three fixed byte strings, keys fixed seeded keys. Signature blinding (blind) is not covered."),
     ref="4 C19")
 
+CLAIMED["C14"] = dict(
+    engine="engine",
+    technique="TLA+ specs HostV1 / HostV0 (one action per host call: trap condition, return value, effect on return value / logs / legacy state / action tree, minimal energy charge; limits as invariants checked by TLC) and InstanceHandles (state entries, iterators); their behaviours are compiled into Wasm contracts and run through v1::invoke_receive / v0::invoke_receive with metering, comparing outcome class, return codes, return value, logs, resulting state and the per-call energy trace",
+    text=("HostV1.tla and HostV0.tla specify the host interface from the contract's side: for every host call the window / offset / tag / payload-length condition under which it traps, the value it returns otherwise "
+          "(-1, 0/1, byte counts, u32::MAX), its effect (return-value length with the 16 KiB limit in P4, number and size of logs, legacy state length <= 16 KiB, action indices) and the least energy it must charge; TLC "
+          "checks the limits as invariants over scripts of up to 4 calls with every boundary class of pointer, length, offset, size, parameter index and invoke tag in P4-P7. One script per transition of the one-call "
+          "graph plus random scripts of up to 7 calls are compiled to Wasm contracts (results stored in memory and returned / logged) and executed with metering; outcome class (success / trap / interrupt kind / out of "
+          "energy), every return code, return-value and log sizes, legacy state contents and DebugTracker's per-call energy (>= scheduled) must agree, a panic is a violation, and each script is re-run under reduced "
+          "budgets (must end out-of-energy or identically). InstanceHandles.tla behaviours (entries, iterators, locks, stale handles) are compiled to state host calls and the resulting persistent state is compared."),
+    note=("Not in the alphabet: signature verification, upgrade, policies, init-only functions, send (v0), nested invocation after an interrupt (C13 covers interrupts at the interpreter level). Out-of-window calls whose charge "
+          "depends on the claimed length may end out-of-energy instead of trapping. Exact remaining energy is not compared (only per-call lower bounds and budget monotonicity). Call-depth limit not exercised."),
+    ref="4 C14")
+
 NOT_YET = {
 }
 
